@@ -130,4 +130,25 @@ CHECKS = {
                      "the prior's own gradient and curvature are taken from the library (C09 is not claimed)"],
         distinct_by_hash=True,
     ),
+    "C17": dict(
+        level="fault_enumeration",
+        parts=[dict(harness="chk_C17", variant="seq", src="checks/chk_C17.cpp", extra_rt=["simalloc"],
+                    runs=dict(quick=320, thorough=48000), wall_cap=dict(quick=170, thorough=2400))],
+        rule=("one case = one text or header and one fault class whose positions are enumerated completely: (registry) the parameter "
+              "text a default-constructed object of each registered class of 10 registries prints for itself -> round trip fixed point, "
+              "case/white-space variants, end of input after every byte, read error (badbit) mid-stream, one flipped bit at every byte, "
+              "every line lost / duplicated; (keyparser) generated texts for a parser with scalar, aliased and vectorised keys; "
+              "(interfile) image and projection-data headers written by the library -> truncated at every byte, one flipped bit at every "
+              "byte, every line lost / duplicated, list-valued lines with an entry lost / gained, data file shorter / longer.  "
+              "Non-trivial: every case; distinct = event-log hash."),
+        components=dict(real=REAL_COMMON + ["KeyParser, ParsingObject, RegisteredObject registries and every registered class's keymap / "
+                                            "post_processing, InterfileHeader / InterfilePDFSHeader, read_from_file, ProjData::read_from_file"],
+                        stub=["the input device of the text (string stream / custom streambuf with short reads, EOF and read errors)",
+                              "operator new (allocation cap 64 MB)"] + STUB_IO),
+        assumptions=["'internally consistent object' is operationalised as: the text it prints for itself re-parses to the same text; for "
+                     "projection data: every segment it announces can be read or reading reports an error, and what was read fits in the file",
+                     "coverage-guided byte-level fuzzing (also named in the property's quantifier) is a different technique and not part of this check",
+                     "classes that cannot be default-constructed and parsed without external data are skipped (counted by a probe)"],
+        distinct_by_hash=True,
+    ),
 }
